@@ -116,6 +116,10 @@ func (c *concCtx) build(v Val, t types.Type, depth int) builder {
 			return sb.String()
 		}
 	case *types.Pointer:
+		if _, isObj := v.(PtrObj); isObj && typeName(u.Elem()) == "bytes.Buffer" {
+			// an empty buffer (BufOld is then the empty text); the callee's behaviour does not depend on the old text
+			return func() string { return "&bytes.Buffer{}" }
+		}
 		p, ok := v.(PtrHeap)
 		if !ok {
 			fail("pointer parameter is %T", v)
